@@ -5,7 +5,7 @@
 (* real result of App.BeginBlocker / App.EndBlocker (error or recovered panic). *)
 (* A failing automatic phase has no action in Chain.tla except the Dev_*        *)
 (* deviations enabled for findings listed in known_findings.jsonl (KNOWN).      *)
-EXTENDS Chain, Json, TLC
+EXTENDS Chain, Json, TLC, TraceLib
 CONSTANT KNOWN      \* set of open finding ids for this property
 Trace == ndJsonDeserialize("trace.ndjson")
 VARIABLES l, viol, hist
@@ -43,7 +43,7 @@ Step ==
         /\ height' = IF isBegin THEN e.h ELSE height
         /\ now' = IF isBegin THEN e.t ELSE now
         /\ halted' = IF isBegin THEN ~e.ok ELSE IF isEnd THEN ~e.ok ELSE halted
-        /\ viol' = IF Cardinality(viol) >= 40 THEN viol ELSE viol \cup { <<l, c>> : c \in bad }
+        /\ viol' = AddViol(viol, l, bad)
         /\ l' = l + 1
 Spec == Init /\ [][Step]_tvars
 Done == (l = Len(Trace) + 1) => PrintT(<<"VIOLS", ToJson(viol)>>)
